@@ -16,19 +16,25 @@ warnings.filterwarnings('ignore')
 
 # ---------------------------------------------------------------------------------------- landscapes
 def _landscape_instances(cls_name, w, seed):
+    """instances with the default dtype (numpy.float64), explicit float64 and explicit float32"""
     from furax import landscapes as L
     stokes_all = ['IQU', 'QU', 'I', 'IQUV']
     st = w.get('stokes') if w.get('stokes') in stokes_all else 'IQU'
     nsides = [w['nside']] if isinstance(w.get('nside'), int) and 1 <= w['nside'] <= 64 else []
-    nsides += [1, 2, 4]
+    nsides += [1, 2]
+    dtypes = [(), (np.float64,), (np.float32,)]          # () = the constructor's default
+    if w.get('dtype_default') == 1:
+        dtypes = [()] + dtypes[1:]
     out = []
     if cls_name == 'HealpixLandscape':
         for n in nsides:
             for s in [st] + stokes_all[:2]:
-                out.append(L.HealpixLandscape(n, s, np.float32))
+                for dt in dtypes:
+                    out.append(L.HealpixLandscape(n, s, *dt))
     elif cls_name == 'FrequencyLandscape':
         for n in nsides:
-            out.append(L.FrequencyLandscape(n, jnp.array([30., 40., 100.]), st, np.float32))
+            for dt in dtypes:
+                out.append(L.FrequencyLandscape(n, jnp.array([30., 40., 100.]), st, *dt))
     else:
         base = getattr(L, cls_name)
 
@@ -45,15 +51,16 @@ def _landscape_instances(cls_name, w, seed):
 
             def world2pixel(self, theta, phi):
                 raise NotImplementedError
-        shapes = [(4,), (2, 3), (2, 3, 4)]
+        shapes = [(4,), (2, 3)]
         if isinstance(w.get('shape'), list) and all(isinstance(v, int) and 0 <= v < 50 for v in w['shape']):
             shapes.insert(0, tuple(w['shape']))
         for sh in shapes:
-            if cls_name == 'Landscape':
-                out.append(Concrete(sh, np.float32))
-            else:
-                out.append(Concrete(sh, st, np.float32))
-                out.append(Concrete(pixel_shape=sh, stokes=st, dtype=np.float32))
+            for dt in dtypes:
+                if cls_name == 'Landscape':
+                    out.append(Concrete(sh, *dt))
+                else:
+                    out.append(Concrete(sh, st, *dt))
+                    out.append(Concrete(pixel_shape=sh, stokes=st, **({'dtype': dt[0]} if dt else {})))
     return out
 
 
@@ -63,10 +70,17 @@ def _same_value(a, b):
     return a == b
 
 
-def landscape_roundtrip(w, seed, spec):
-    fails = []
-    for obj in _landscape_instances(spec.get('cls', 'HealpixLandscape'), w, seed):
+def _same_dtype(a, b):
+    try:
+        return np.dtype(a) == np.dtype(b)
+    except TypeError:
+        return a == b
+
+
+def _roundtrip_once(cls_name, w, seed, mode, fails):
+    for obj in _landscape_instances(cls_name, w, seed):
         name = type(obj).__mro__[1].__name__ if type(obj).__name__ == 'Concrete' else type(obj).__name__
+        name = f'{name}(dtype={np.dtype(obj.dtype).name}) [64-bit mode {mode}]'
         try:
             leaves, treedef = jax.tree.flatten(obj)
             new = jax.tree.unflatten(treedef, leaves)
@@ -76,10 +90,35 @@ def landscape_roundtrip(w, seed, spec):
         if type(new) is not type(obj):
             fails.append(f'{name}: round trip changes the class')
         for k in sorted(set(vars(obj)) | set(vars(new))):
-            if not _same_value(vars(obj).get(k, '<missing>'), vars(new).get(k, '<missing>')):
-                fails.append(f'{name}: attribute {k} differs after the round trip: {vars(obj).get(k)!r} -> {vars(new).get(k)!r}')
+            a, b = vars(obj).get(k, '<missing>'), vars(new).get(k, '<missing>')
+            same = _same_dtype(a, b) if k == 'dtype' else _same_value(a, b)
+            if not same:
+                fails.append(f'{name}: attribute {k} differs after the round trip: {a!r} -> {b!r}')
+        if hasattr(obj, 'structure'):
+            try:
+                if obj.structure != new.structure:
+                    fails.append(f'{name}: .structure differs after the round trip: {obj.structure} -> {new.structure}')
+            except Exception as e:      # noqa: BLE001
+                fails.append(f'{name}: .structure after the round trip: {type(e).__name__}')
         if len(fails) > 4:
             break
+
+
+def landscape_roundtrip(w, seed, spec):
+    """flatten/unflatten every landscape class, default / float64 / float32 dtype, with 64-bit mode off and on"""
+    fails: list = []
+    before = bool(jax.config.jax_enable_x64)
+    modes = [before, not before]
+    if isinstance(w.get('x64'), bool):
+        modes = [w['x64'], not w['x64']]
+    try:
+        for mode in modes:
+            jax.config.update('jax_enable_x64', mode)
+            _roundtrip_once(spec.get('cls', 'HealpixLandscape'), w, seed, 'on' if mode else 'off', fails)
+            if len(fails) > 4:
+                break
+    finally:
+        jax.config.update('jax_enable_x64', before)
     return fails[:6]
 
 
